@@ -51,7 +51,7 @@ CLAUSES = ["symbol-set", "stored-coefficient", "alias-get", "defocus-is-minus-C1
            "rotation-oracle-f32", "full-ctf-phase", "full-ctf-phase-f32", "full-ctf-dc-is-one",
            "weighted-ensemble-member-kernel", "history-state", "history-kernel", "history-kernel-f32", "history-equals-fresh"]
 QUICK = dict(n=420, time=40)
-THOROUGH = dict(n=24000, time=300, shards=16)
+THOROUGH = dict(n=192000, time=480, shards=16)
 ASSUMPTIONS = ["wavelength taken from CODATA-2014 closed form (checked against abTEM by C24)",
                "float32 runs are compared with a tolerance proportional to the maximal phase (float32 rounding of alpha/phi)"]
 
